@@ -234,6 +234,13 @@ func runnerMain() int {
 		if spec.Race {
 			per = 100
 		}
+		// spread small budgets over all cores
+		if want := (n + 2*runtime.NumCPU() - 1) / (2 * runtime.NumCPU()); want < per {
+			per = want
+			if per < 5 {
+				per = 5
+			}
+		}
 		// aim for >= 2 chunks per core on big budgets, but small processes
 		for from := 0; from < n; from += per {
 			k := per
